@@ -22,6 +22,7 @@ func init() { Registry["C14"] = RunC14 }
 
 var (
 	reC14Pos       = regexp.MustCompile(`^(\S*?)([^/\s:]+):(\d+):(\d+): `)
+	reC14LineCol   = regexp.MustCompile(`^(\d+):(\d+): `)
 	reC14Goroutine = regexp.MustCompile(`goroutine \d+ \[`)
 	reC14Frame     = regexp.MustCompile(`^\t\S*?/((?:pkg/\S+|main)\.go):\d+`)
 	reC14Marker    = regexp.MustCompile(`^\s*//\s*:convergen\b`)
@@ -326,6 +327,21 @@ func judgeC14(rep *core.Report, c *c14Case) string {
 		first := c14FirstDiag(r.Stderr)
 		m := reC14Pos.FindStringSubmatch(first)
 		if m == nil || m[2] != filepath.Base(c.Argv) {
+			// a path with blanks or other odd characters: accept the literal spelling of the input
+			abs := c.Argv
+			if !filepath.IsAbs(abs) {
+				abs = filepath.Join(c.Dir, c.Argv)
+			}
+			for _, pre := range []string{abs, c.Argv} {
+				if pre != "" && strings.HasPrefix(first, pre+":") {
+					if mm := reC14LineCol.FindStringSubmatch(first[len(pre)+1:]); mm != nil {
+						m = []string{first, filepath.Dir(pre) + "/", filepath.Base(c.Argv), mm[1], mm[2]}
+					}
+					break
+				}
+			}
+		}
+		if m == nil || m[2] != filepath.Base(c.Argv) {
 			return viol("unpositioned-diagnostic", "first diagnostic does not start with <setup file>:<line>:<col>: "+core.Trunc(first, 300), map[string]string{"stderr": c14DiagClass(first)})
 		}
 		line, _ := strconv.Atoi(m[3])
@@ -486,7 +502,12 @@ func RunC14(e *core.Env) int {
 		if end > len(all) {
 			end = len(all)
 		}
+		// every other batch lives below a directory whose name holds characters that are special to
+		// formatted printing and shells (a checkout called "50%off (new) $x"): positions must still read true
 		root := filepath.Join(e.Work, fmt.Sprintf("c14-b%d", bi))
+		if bi%2 == 1 {
+			root = filepath.Join(e.Work, fmt.Sprintf("c14-b%d 50%%off %%v%%s%%d (new) $x", bi))
+		}
 		if err := scen.WriteModuleBase(root); err != nil {
 			rep.Inconclusive("batch setup: " + err.Error())
 			continue
